@@ -46,6 +46,8 @@ func vRow(peer string) int {
 	return -1
 }
 
+func vNewStoreModel(db *bbolt.DB) (*BBoltPremiumStore, error) { return &BBoltPremiumStore{}, nil }
+
 func vStoreGetRate(p *BBoltPremiumStore, peer string, asset AssetType, operation OperationType) (*PremiumRate, error) {
 	i := vRow(peer)
 	if i < 0 || !vStore.set[i][asset][operation] {
@@ -94,7 +96,13 @@ func vNewSetting(drawContent bool) (*vRateMap, *Setting) {
 		zzverif.Override("(*github.com/elementsproject/peerswap/premium.BBoltPremiumStore).GetRate", vStoreGetRate)
 		zzverif.Override("(*github.com/elementsproject/peerswap/premium.BBoltPremiumStore).SetRate", vStoreSetRate)
 		zzverif.Override("(*github.com/elementsproject/peerswap/premium.BBoltPremiumStore).DeleteRate", vStoreDeleteRate)
-		return m, &Setting{store: &BBoltPremiumStore{}}
+		// built by the real constructor (whatever else it sets up), over the store model
+		zzverif.Override("github.com/elementsproject/peerswap/premium.NewBBoltPremiumStore", vNewStoreModel)
+		st, err := NewSetting(nil)
+		if err != nil {
+			zzverif.Fail("NewSetting failed over the store model")
+		}
+		return m, st
 	}
 	dir, err := os.MkdirTemp("", "zzverif-premium-")
 	if err != nil {
@@ -195,12 +203,24 @@ type vSpec struct {
 
 // vHistory runs n update steps through the Setting API (SetRate / SetDefaultRate / DeleteRate on peers
 // A and B, arbitrary asset, operation and value per step) starting from an empty store, mirroring
-// them in a specification map, then compares every cell read through GetRate / GetDefaultRate.
+// them in a specification map, then compares every cell read through GetRate / GetDefaultRate (every cell
+// was also read once before the updates).
 func vHistory(n int) {
 	m, s := vNewSetting(false)
 	_ = m
 	spec := &vSpec{}
 	ctx := context.Background()
+	// rates are read between updates as well (requests are served all the time): every cell is looked up
+	// once before the updates, so that an answer remembered from an earlier lookup would show
+	for _, a := range vAssets {
+		for _, o := range vOps {
+			s.GetDefaultRate(a, o)
+			for row := 0; row < 2; row++ {
+				s.GetRate(vPeers[row], a, o)
+				s.Compute(vPeers[row], a, o, 1000)
+			}
+		}
+	}
 	for k := 0; k < n; k++ {
 		kind := zzverif.Choice("step.kind", 3)
 		row := zzverif.Choice("step.peer", 2)
@@ -241,6 +261,8 @@ func vHistory(n int) {
 		}
 	}
 	zzverif.Assert(ok, "C27.history_behaves_like_map")
+	// C12's view: the rate a responder charges a peer is the one configured now, not one looked up earlier
+	zzverif.Assert(ok, "C12.responder_rate_is_the_currently_configured_one")
 }
 
 // H_C27_settingHistory: every sequence of 2 updates (set peer rate / set default rate / delete peer
@@ -248,6 +270,7 @@ func vHistory(n int) {
 // store leaves all 12 readable cells equal to the specification map (set overwrites, delete falls
 // back to the default chain, keys do not interfere).  Bounds: 2 steps, 2 peers.  The store's
 // persistence (bbolt) is outside; natively the real store is used.
+// zzverif:also C12
 func H_C27_settingHistory() { vHistory(2) }
 
 // H_C27_T_settingHistory3: the same for 3 steps.
